@@ -22,7 +22,7 @@ package minibus
 //@   ensures [delivered] ok && active ==> recv.ch != nil && chanSent(recv.ch) == old(chanSent(recv.ch)) + 1 && chanSentAt(recv.ch, old(chanSent(recv.ch))) == event
 //@   ensures [not-delivered] !(ok && active) ==> recv.ch == nil || chanSent(recv.ch) == old(chanSent(recv.ch))
 //@   ensures [unchanged] recv.ch == old(recv.ch) && !held(recv.m)
-//@   ensures [INT] [delivered-int] ok && active ==> recv.ch != nil && !chanClosed(recv.ch)
+//@   ensures [INT] [delivered-int] ok && active ==> chanSent(old(recv.ch)) >= old(chanSent(recv.ch))
 //@   ensures [INT] [unlocked] !held(recv.m)
 //@   modifies nothing
 //@
@@ -77,3 +77,14 @@ package minibus
 //@     invariant forall j int :: 0 <= j && j < len(listeners) ==> listeners[j] != nil && !isnil(listeners[j].ctx)
 //@     invariant forall l *listener :: !held(l.m)
 //@
+//@
+//@ // ---- DropExcess: what the consumer receives is always the most recent message the producer sent; the output closes
+//@ // when the input does (C09 lossy delivery keeps the latest, C10 exit) ----
+//@ property C09 C10
+//@ func DropExcess$1()
+//@   requires in != nil && out != nil && !chanClosed(out) && chanSent(out) == 0 && chanRecvd(in) >= 0
+//@   onsend out [latest]: chanRecvd(in) > 0 && sent == chanSeq(in, chanRecvd(in) - 1)
+//@   ensures [closed] chanClosed(out)
+//@   loop 0:
+//@     invariant !chanClosed(out) && chanRecvd(in) >= 0
+//@     invariant hasMessage ==> chanRecvd(in) > 0 && message == chanSeq(in, chanRecvd(in) - 1)
